@@ -246,7 +246,8 @@ def rw_labels(rng, src, zero=None):
     linenos = set(re.findall(r'^\s*(\d+)\s', src, re.M))
     mapping = {}
     for i, l in enumerate(sorted(labels)):
-        mapping[l.lower()] = f'zl{i}x{rng.randint(0, 99)}'
+        # (the new names sort in another order than the old ones: nothing may depend on the order of the names)
+        mapping[l.lower()] = 'q' + ''.join(rng.choice('abcdefghijklmnopqrstuvwxyz') for _ in range(3)) + f'{i}x{rng.randint(0, 99)}'
     used = set()
     # line number 0 is a line number like any other: every third rewriting gives it to one of the lines
     if zero is None and linenos and '0' not in linenos and rng.random() < 0.34:
@@ -321,6 +322,11 @@ SPECIAL = [
     '10 DATA 1, 2\n20 DATA 30, 40\n30 READ a, b, c\n40 RESTORE 20\n50 READ d\n60 PRINT a; b; c; d\n70 GOSUB 200\n80 PRINT "back"\n90 GOTO 300\n'
     '200 PRINT "sub"\n210 RETURN 250\n220 PRINT "not here"\n250 PRINT "to 250"\n260 GOTO 80\n300 ON ERROR GOTO 400\n310 x% = 1 \\ z%\n320 PRINT "end"\n330 END\n'
     '400 PRINT ERR\n410 RESUME NEXT\n',
+    # RESTORE to a label / line that has no DATA of its own: the first DATA statement after it in the source is meant,
+    # whatever the labels are called
+    'start: DATA 1\nhollow: REM nothing here\nmore: DATA 2\nlast: DATA 3\nRESTORE hollow: READ a: PRINT a\nRESTORE more: READ b: PRINT b\nRESTORE start: READ c: PRINT c\n'
+    'empty1:\nempty2:\nzz: DATA 4\nRESTORE empty2: READ d: PRINT d\nRESTORE empty1: READ e: PRINT e\n',
+    '90 DATA 1\n100 REM nothing here\n110 DATA 2\n120 DATA 3\n130 RESTORE 100: READ a: PRINT a\n140 RESTORE 110: READ b: PRINT b\n150 RESTORE 90: READ c: PRINT c\n',
     '5 k% = k% + 1\n10 IF k% < 3 THEN GOTO 5\n20 IF k% = 3 THEN GOTO 40 ELSE GOTO 50\n30 PRINT "skipped"\n40 PRINT "forty": k% = 9: GOTO 20\n50 PRINT "fifty"; k%\n60 DATA 7\n70 DATA 8\n'
     '80 READ p%: RESTORE 70: READ q%: RESTORE 60: READ r%: PRINT p%; q%; r%\n',
 ]
